@@ -28,6 +28,27 @@ for _oid in ['store_uint', 'store_int', 'store_var_uint', 'store_var_int', 'stor
                samples=_o.samples, assumes=_o.assumes, inlined=_o.inlined)(_o.fn)
 
 
+@obligation('C07.width0', 'C07', cases=[{'op': op, 'n': n} for op in ('store_uint', 'store_int') for n in (0, -1)],
+            fuc=[B + 'store_uint', B + 'store_int'], inlined=['bitarray.util.int2ba (model T1)'],
+            descr='the lower end of "every width": store_uint / store_int with a stated width of 0 (or a negative one) at every fill '
+                  'level, for ALL values: a value other than 0 does not fit and is refused with an error - never accepted and silently '
+                  'dropped; a negative width is always refused; whatever the outcome, the builder holds what it held before (whether '
+                  'the value 0 at width 0 is accepted or refused is not decided here: width 0 is outside the widths 1..257 of C06)')
+def width0(w, op, n):
+    p = w.int('p', 0, 1023)
+    refs = [Child(i) for i in range(2)]
+    b, pre = mk_builder(w, p, refs)
+    v = w.int('v')
+    k, out = call(getattr(b, op), v, n)
+    if k == 'ok':
+        w.cover('ok')
+        w.claim('accepted only if the value fits the stated width (width 0: the value 0)', w.And(n == 0, v == 0))
+    else:
+        w.cover('raise')
+        w.claim(f'refusal is an API error ({type(out).__name__})', is_error(out))
+    w.claim('builder content unchanged', w.And(w.eq_seq(bits_of(w, b), pre), same_objects(b.refs, refs)))
+
+
 @obligation('C07.store_cell', 'C07', cases=[{'q': q, 'j': j} for q in range(5) for j in range(5)],
             fuc=[B + 'store_cell', B + 'store_bits', T + 'extend', T + 'check_overflow'],
             descr='store_cell of a cell with k bits (symbolic) and j refs into a builder with p bits and q refs')
